@@ -91,12 +91,17 @@ SILENT = [
 ]
 
 
+# which properties read the code a refactoring area touches
+REFACTOR_AREAS = {"R1": ("C04", "C05", "C02", "C12", "C17"), "R2": ("C06", "C07", "C08", "C09", "C10", "C01", "C03"), "R3": ("C01", "C02", "C13", "C14"),
+                  "R4": ("C17", "C18"), "R5": ("C16", "C19", "C20", "C11", "C15"), "R6": ("C11", "C10", "C12", "C13")}
+
+
 def _run_variant(job):
     kind, name, prop, root, spec = job
     tmp = pathlib.Path(tempfile.mkdtemp(prefix="selfval_", dir="/tmp"))
     try:
         shutil.copytree(pathlib.Path(root) / "tealer", tmp / "tealer")
-        if kind == "patch":
+        if kind in ("patch", "refactor"):
             r = subprocess.run(["patch", "-p1", "-s", "-f", "-i", spec], cwd=tmp, capture_output=True, text=True)
             if r.returncode:
                 return kind, name, "skipped (patch does not apply to the current tree)", None
@@ -132,6 +137,13 @@ def run(pid, ctx, rep):
                 patch = VERIF / "seeded" / name if name.endswith(".diff") else VERIF / "seeded" / sid / "patch.diff"
                 if patch.exists():
                     jobs.append(("patch", sid, pid, str(ctx.root), str(patch)))
+    # behaviour-preserving refactorings written by independent agents (suite passes, outputs compared): must stay silent
+    rdir = VERIF / "seeded" / "refactors"
+    if rdir.is_dir():
+        for d in sorted(rdir.iterdir()):
+            area = d.name.split("-")[0]
+            if (d / "patch.diff").exists() and pid in REFACTOR_AREAS.get(area, ()):
+                jobs.append(("refactor", d.name, pid, str(ctx.root), str(d / "patch.diff")))
     for f, old, new, props_ in SILENT:
         if pid in props_:
             jobs.append(("silent", f"{f.split('/')[-1]}: {(old[0] if isinstance(old, (list, tuple)) else old).strip().splitlines()[0][:50]}", pid, str(ctx.root), (f, old, new)))
